@@ -211,13 +211,16 @@ pub fn invalid_start(g: &mut Gen, stats: &mut Stats) -> Result<(), Violation> {
 	if start.is_empty() {
 		return Ok(());
 	}
-	let items = vec![1u8, 2, 3];
+	// the batch may be empty: validation of the existing prefix must not depend on it
+	let items: Vec<u8> = vec![1u8, 2, 3][..g.below(4)].to_vec();
+	let k = items.len() as u128;
 	let deque = g.bool();
 	let input = start.clone();
 	let got = guard(|| append::<u8, _, _>(deque, input, &items))
 		.map_err(|p| Violation::new("C15/panic/invalid-start", format!("append_or_new panicked on start {}: {p}", hex(&start))))?;
 	stats.eval();
 	stats.class(if valid { "start: valid count" } else { "start: invalid count" });
+	stats.class(&format!("raw-start batch size {}", items.len()));
 	if !valid {
 		stats.nontrivial(&start);
 	}
@@ -229,10 +232,10 @@ pub fn invalid_start(g: &mut Gen, stats: &mut Stats) -> Result<(), Violation> {
 		));
 	}
 	if valid {
-		// the count is valid: the result must be the count + 3, the old payload, then the items
+		// the count is valid: the result must be the count + k, the old payload, then the items
 		let (old, used) = dec_compact(&start, 32).unwrap();
-		if old + 3 <= u128::from(u32::MAX) {
-			let mut expected = compact_bytes(old + 3);
+		if old + k <= u128::from(u32::MAX) {
+			let mut expected = compact_bytes(old + k);
 			expected.extend_from_slice(&start[used..]);
 			expected.extend_from_slice(&items);
 			if got.as_ref().ok() != Some(&expected) {
@@ -268,11 +271,11 @@ pub fn run(ctx: &Ctx) -> (Level, Report) {
 	let mut report = Report::default();
 	for (name, check) in tape_checks(ctx) {
 		let quick = match name {
-			"histories" => 40_000,
-			"unit-items" => 40_000,
-			_ => 40_000,
+			"histories" => 300_000,
+			"unit-items" => 300_000,
+			_ => 200_000,
 		};
-		let out = ctx.random(name, quick, 20, 2048, &*check);
+		let out = ctx.random(name, quick, 10, 2048, &*check);
 		report.absorb(name, out);
 	}
 	if ctx.tier == Tier::Thorough {
